@@ -32,4 +32,27 @@ PROPS = {
                 "scenarios, concurrency interleavings and transient faults are sampled from the seed.",
         "note": "Trusts objstore's in-memory bucket for object semantics and atomic PUT; local disk is real and un-torn.",
     },
+    "C35": {
+        "world": "BL",
+        "level": "fault_enumeration",
+        "technique": "deterministic simulation: crash-point enumeration over Shipper.Sync's bucket operations, restart histories, seeded transient faults",
+        "design_ref": "DESIGN.md §6 C35",
+        "quick": {"runs": 300, "seconds": 60},
+        "thorough": {"runs": 8000, "seconds": 900},
+        "rule": "one evaluation = one generated local block set (1-4 blocks + 0-2 appearing later; levels 1-3, empty/non-empty, with/without Thanos "
+                "meta section), shipper options (upload-compacted, out-of-order uploads, upload concurrency) and restart behaviour (shipper meta file "
+                "kept or lost, a local block removed); Sync is executed fault-free, then once per crash point of its bucket operation sequence "
+                "followed by restarts and further syncs (half of them with transient bucket errors before/after the effect) until a sync succeeds. "
+                "Oracles run after every bucket operation and every Sync. distinct = distinct event-log hash; non-trivial = the reference Sync "
+                "issued at least one bucket operation.",
+        "components": BL_COMPONENTS,
+        "assumptions": ["PUT of one object is atomic; local directories (TSDB blocks, thanos.shipper.json) are real files and not torn; a crash "
+                        "happens at a bucket operation (no effect of the dead shipper reaches the bucket afterwards)",
+                        "blocks are synthetic (the shipper never opens index or chunks)",
+                        "a Sync that keeps failing because a compacted block overlaps is legitimate and not judged"],
+        "text": "Every crash point of Sync's bucket operation sequence for each generated scenario is enumerated and followed by restart histories; "
+                "scenarios, upload interleavings and transient faults are sampled from the seed.",
+        "note": "Trusts objstore's in-memory bucket for object semantics; local disk is real and un-torn; 'eligible' is computed by the "
+                "harness from the property text (non-empty and level 1, or compacted uploads enabled).",
+    },
 }
